@@ -75,7 +75,7 @@ def run_A(root, A, extra_options=None):
     for pid, d, n in log:
         i = snapshot.get(pid)
         if i is None:
-            i = fresh.setdefault(pid, 100000 + len(fresh))
+            i = fresh.setdefault(pid, 500 + len(fresh))
         pre.append((i, d, n))
     # drop repeated requests of the same entity (NameSelector answers them from its cache)
     seen, pre1 = set(), []
